@@ -84,6 +84,7 @@ type Engine struct {
 	FeasStats map[string]int
 	ReusedArrays int
 	models    []*cachedModel
+	light     *Solver
 }
 
 type hashApp struct {
@@ -122,6 +123,9 @@ func (e *Engine) assume(t *Term) {
 	e.Assumes++
 	e.real = append(e.real, t)
 	e.solver.Assert(t)
+	if e.light != nil {
+		e.light.Assert(t)
+	}
 }
 
 func (e *Engine) feasibleW(g *Term, why string) bool {
@@ -171,6 +175,36 @@ func (e *Engine) feasible(g *Term) bool {
 		}
 	}
 	e.models = live
+	if e.light != nil {
+		// light solver: only harness assumptions and negated assertions (not the hundreds of negated panic conditions).
+		// unsat there is unsat everywhere; a model is accepted if it also satisfies every other assumption.
+		lr, lm, _ := e.light.Check(g, true)
+		e.FeasStats["light:n"]++
+		if lr == Unsat {
+			e.FeasStats["light:unsat"]++
+			return false
+		}
+		if lr == Sat && lm != nil {
+			cm := &cachedModel{m: lm, memo: map[*Term]uint64{}}
+			ok := true
+			for cm.valid < len(e.solver.assumptions) {
+				if Eval(e.solver.assumptions[cm.valid], cm.m, cm.memo) == 0 {
+					ok = false
+					break
+				}
+				cm.valid++
+			}
+			if ok && Eval(g, cm.m, cm.memo) != 0 {
+				e.FeasStats["light:sat-valid"]++
+				e.models = append([]*cachedModel{cm}, e.models...)
+				if len(e.models) > 12 {
+					e.models = e.models[:12]
+				}
+				return true
+			}
+		}
+	}
+	e.FeasStats["full:n"]++
 	r, m, _ := e.solver.Check(g, true)
 	if r == Sat && m != nil {
 		cm := &cachedModel{m: m, memo: map[*Term]uint64{}, valid: len(e.solver.assumptions)}
@@ -259,6 +293,9 @@ func (e *Engine) vc(kind, label string, p token.Pos, cond *Term) *VC {
 	}
 	e.pending = append(e.pending, pendVC{v, cond, len(e.real)})
 	e.solver.Assert(Not(cond))
+	if e.light != nil && kind != "panic" && kind != "block" {
+		e.light.Assert(Not(cond))
+	}
 	if len(e.pending) >= chunkSize {
 		e.flush()
 	}
